@@ -145,6 +145,10 @@ def check(case, ctx):
     keys2 = W(np.array(["x", "y"])[rng.integers(0, 2, size=n)], "k2")
     vals = np.round(rng.normal(0, 5, size=n), 1) if case["vkind"] == "float" else rng.integers(-9, 10, size=n).astype("int64")
     vals2 = np.round(rng.normal(0, 5, size=n), 1) if case["vkind"] == "float" else rng.integers(1, 10, size=n).astype("int64")
+    if case["vkind"] == "dt":
+        # temporal values take their own pre-processing path (unwrapped to bare arrays before the kernels)
+        vals = (rng.integers(0, 10**6, size=n) + 1_600_000_000 * 10**6).astype("int64").view("M8[us]")
+        vals2 = (rng.integers(0, 10**6, size=n) + 1_600_000_000 * 10**6).astype("int64").view("M8[us]")
     tms = (np.cumsum(rng.integers(0, 5, size=n)) + 1_600_000_000).astype("int64").astype("M8[s]").astype("M8[ns]")
     a0 = {"values": W(vals, "v"), "values2": W(vals2, "v2"), "mask": W(rng.random(n) < 0.7) if case["with_mask"] else None,
           "subset_mask": W(rng.random(n) < 0.5), "times": W(tms), "codes": codes.astype("int64"), "ngroups": 3, "keys": keys, "keys2": keys2}
@@ -219,7 +223,11 @@ def run(ctx):
     for rep in range(reps):
         for op in mine:
             for pdk in (False, True):
-                case = {"op": op, "n": int(rng.integers(4, 12)), "pd_keys": pdk, "keykind": gen.pick(rng, ["int", "str"]), "vkind": gen.pick(rng, ["float", "int"]),
+                vk = gen.pick(rng, ["float", "int", "dt"])
+                if vk == "dt" and (op.split("_T")[0] in ("sum", "var", "std", "median", "quantile", "agg", "apply", "ratio", "subset_ratio", "density", "cumsum", "sum_two", "nearby",
+                                                         "rolling_sum", "rolling_mean", "rolling_sum_bg", "ema", "ema_timed", "ema_bg", "mean") or op.startswith(("nb.", "ema_", "crosstab"))):
+                    vk = "float"
+                case = {"op": op, "n": int(rng.integers(4, 12)), "pd_keys": pdk, "keykind": gen.pick(rng, ["int", "str"]), "vkind": vk,
                         "with_mask": True, "seed": int(rng.integers(1 << 30)), "standalone_pd": bool(rng.random() < 0.5), "noshrink": True}
                 ctx.run_case(case, check, features, nontrivial)
 
